@@ -202,6 +202,11 @@ private:
                 }
             }
             suppressed = true;
+
+            // the global suppressions are not consulted above when they are handled by the executor - show them the finding
+            // so they are not reported as unmatched although they match it
+            if (!mUseGlobalSuppressions)
+                (void)mSuppressions.nomsg.isSuppressed(errorMessage, true);
         }
 
         // TODO: there should be no need for the verbose and default messages here
